@@ -348,7 +348,9 @@ func c03Gen(c *core.Ctx) {
 		}
 		emit(base, "unmutated")
 		if n := len(base); n > 1 && recog.Kind(base[n-1].K) == recog.Newline {
-			for _, tail := range []string{"'x", `"x`, "`x", "$(x", "${x", "$((1", `"${x`, "$(a 'b", "<<E\nbody\n", "<<-'E'\n\tbody", "'x\ny", "a <<E", `"$(x"`, "${a:-`b}", "\"${a:-`b}\"", "${a%%`b}", "$(cat <<E)", "`cat <<E`"} {
+			for _, tail := range []string{"'x", `"x`, "`x", "$(x", "${x", "$((1", `"${x`, "$(a 'b", "<<E\nbody\n", "<<-'E'\n\tbody", "'x\ny", "a <<E", `"$(x"`, "${a:-`b}", "\"${a:-`b}\"", "${a%%`b}", "$(cat <<E)", "`cat <<E`",
+				// constructs that are complete but ill-formed: the length form takes no operator
+				"${#a-b}", "${#a:=b}", "${#a%b}", "${#a#}", "\"${#a:-b}\""} {
 				core.Do(c, c03Case{Toks: c03Normalise(base[:n-1]), Tail: tail, Kind: "unterminated-construct"}, c03Exec)
 			}
 		}
